@@ -36,6 +36,8 @@ def _one(case, rec, cid, p):
     else:
         st, q = outcome(lambda: p.add_months(case["d"]["mo"]))
     pp = proj_tp(p)
+    if case.get("dvia") == "standardize":
+        d = mk_dur(case["d"])          # judged against the duration that was asked for (n months are n months)
     if st == "ok":
         rec.ev("Add", cid, how=how, p=pp, d=proj_dur(d), q=proj_tp(q), ok=True, cls="")
     else:
@@ -118,8 +120,8 @@ def expand(job):
                 d[k_] = d.get(k_, 0) + rnd.choice([0.5, 0.25, -0.75, 1.5])
             p = gen.rand_point(rnd, m, wide=rnd.random() < 0.2, whole=not fracp, allow24=not fracp)
             case = {"mode": sp, "p": p, "d": d, "how": rnd.choice(["add", "radd", "sub"])}
-            if rnd.random() < 0.15:
-                case["dvia"] = "parse"      # the interval as DurationParser reads it (float components)
+            if rnd.random() < 0.25:
+                case["dvia"] = rnd.choice(["parse", "floatdays", "standardize"])      # the same duration obtained in other ways
             if not fracp and p["hh"] < 24 and abs(p["y"]) < 900000 and rnd.random() < 0.1:
                 case["also"] = rnd.randrange(10 ** 6)
             yield case
